@@ -59,7 +59,7 @@ func (g *Gen) collect(op *Op, items []*Node, parent, concrete string, visited ma
 }
 
 // shapeOfSel: the selection sets `sets` (all selected on a value of static type typeName).
-func (g *Gen) shapeOfSel(op *Op, sets [][]*Node, parents []string, typeName string) string {
+func (g *Gen) shapeOfSel(op *Op, sets [][]*Node, parents []string, typeName string, ctx string) string {
 	// the datasource always returns __typename for the objects of _entities (scaffoldEntityLookup):
 	// that member is part of the federation contract, so it is expected even when not selected
 	implicitTypename := typeName == "_Entity"
@@ -89,10 +89,19 @@ func (g *Gen) shapeOfSel(op *Op, sets [][]*Node, parents []string, typeName stri
 							subParents = append(subParents, fd.Type.Base())
 						}
 					}
-					ty = g.shapeOfType(op, fd.Type, subs, subParents)
+					ty = g.shapeOfType(op, fd.Type, subs, subParents, childCtx(g.S, ctx, fd))
 				}
 			}
-			parts = append(parts, common.L("k", common.QS(c.key), common.I(first.UID), ty))
+			tag := "plain"
+			if fd := g.S.Field(concrete, first.Name); fd != nil {
+				if fd.Resolver {
+					tag = "resolver"
+				} else if fd.Requires != "" {
+					tag = "requires"
+				}
+			}
+			tag += ":" + ctx
+			parts = append(parts, common.L("k", common.QS(c.key), common.I(first.UID), ty, tag))
 		}
 		if implicitTypename {
 			has := false
@@ -102,7 +111,7 @@ func (g *Gen) shapeOfSel(op *Op, sets [][]*Node, parents []string, typeName stri
 				}
 			}
 			if !has {
-				parts = append(parts, common.L("k", common.QS("__typename"), "0", "(tn)"))
+				parts = append(parts, common.L("k", common.QS("__typename"), "0", "(tn)", "plain:"))
 			}
 		}
 		variants = append(variants, common.L(parts...))
@@ -110,12 +119,48 @@ func (g *Gen) shapeOfSel(op *Op, sets [][]*Node, parents []string, typeName stri
 	return "(sel " + strings.Join(variants, " ") + ")"
 }
 
-func (g *Gen) shapeOfType(op *Op, t *TypeRef, subs [][]*Node, subParents []string) string {
+// childCtx extends the position context of a field's sub-selection: a = the value is of an abstract
+// type, n = it sits in a nullable or nested list (list wrapper message), r = it is the result of a
+// field resolver, o = nullable object, l = plain list.  Only used to describe failures.
+func childCtx(s *Schema, ctx string, fd *FieldDef) string {
+	t := fd.Type
+	if fd.Resolver {
+		ctx += "r"
+	}
+	if fd.Requires != "" {
+		ctx += "q"
+	}
+	if s.IsAbstract(t.Base()) {
+		ctx += "a"
+	}
+	wraps, nullableOuter := 0, !t.NonNull()
+	for x := t; x.Kind != "named"; x = x.Of {
+		if x.Kind == "list" {
+			wraps++
+		}
+	}
+	switch {
+	case wraps > 1 || (wraps == 1 && nullableOuter):
+		ctx += "n"
+	case wraps == 1:
+		ctx += "l"
+	case nullableOuter:
+		ctx += "o"
+	}
+	return ctx
+}
+
+func (g *Gen) shapeOfType(op *Op, t *TypeRef, subs [][]*Node, subParents []string, ctx string) string {
 	switch t.Kind {
 	case "nonnull":
-		return common.L("nn", g.shapeOfType(op, t.Of, subs, subParents))
+		if t.Of.Kind == "named" && g.S.IsComposite(t.Of.Name) {
+			// T! of an object / abstract type: whether the protobuf message is present is the
+			// service's data; the builder renders an absent message as null.  Not enforced.
+			return g.shapeOfType(op, t.Of, subs, subParents, ctx)
+		}
+		return common.L("nn", g.shapeOfType(op, t.Of, subs, subParents, ctx))
 	case "list":
-		return common.L("l", g.shapeOfType(op, t.Of, subs, subParents))
+		return common.L("l", g.shapeOfType(op, t.Of, subs, subParents, ctx))
 	}
 	td := g.S.Types[t.Name]
 	if td == nil {
@@ -129,11 +174,11 @@ func (g *Gen) shapeOfType(op *Op, t *TypeRef, subs [][]*Node, subParents []strin
 		}
 		return common.L(parts...)
 	case "object", "interface", "union":
-		return common.L("ob", g.shapeOfSel(op, subs, subParents, t.Name))
+		return common.L("ob", g.shapeOfSel(op, subs, subParents, t.Name, ctx))
 	}
 	return common.L("sc", t.Name)
 }
 
 func (g *Gen) ShapeOf(op *Op) string {
-	return g.shapeOfSel(op, [][]*Node{op.Root}, []string{op.RootType()}, op.RootType())
+	return g.shapeOfSel(op, [][]*Node{op.Root}, []string{op.RootType()}, op.RootType(), "")
 }
